@@ -178,7 +178,7 @@ def compare_port(run, rule, pp, sp, keys=ALL, exempt=()):
         return
     run.touch(a)
     sa = _apply(S.summary(a, S.Norm(**NORM_P)), SUBS_P)
-    sb = _apply(S.summary(b, S.Norm(**NORM_S)), SUBS_S)
+    sb = _apply(S.summary(b, S.Norm(**dict(NORM_S, arg_map=S.align_params(a, b)))), SUBS_S)
     d = S.diff(sa, sb, keys, exempt=list(exempt))
     if not d:
         run.ok(rule, inst, detail="%s equal after the name map (%s)" % ("/".join(keys), ", ".join("%d %s" % (len(sa[k]), k) for k in keys)))
@@ -474,6 +474,43 @@ PRE_SUBS_P = [(r"\bamount\b", "token_amount"), (r"MIN_SQRT_PRICE_X64", "MIN_SQRT
 from rules.common import enum_arms as _enum_arms, arm_prov as _arm_prov  # noqa: E402
 
 
+def _sdk_roles(fn):
+    """Loop variables of the SDK's compute_swap by role (never by name): {role: local}."""
+    pv = Prov(fn, cut=True)
+    roles = {}
+    for l in range(fn.argc + 1, len(fn.locals)):
+        if not fn.locals[l].get("n"):
+            continue
+        ds = pv.var_defs(l)
+        if len(ds) < 2:
+            continue
+        terms = [strip(t) for _, _, t in ds]
+        me = ("var", fn.locals[l]["n"], l)
+        inits = [t for t in terms if not any(x == me for x in subterms(t))]
+        upd = [t for t in terms if t not in inits]
+        txt = " | ".join(show(t) for t in upd)
+        role = None
+        if any(is_param(t, "token_amount") for t in inits) and "checked_sub" in txt:
+            role = "remaining"
+        elif any(const_val(t) == 0 for t in inits) and "checked_add" in txt and ("amount_in" in txt or "amount_out" in txt):
+            role = "calculated"
+        elif any(t[0] == "field" and t[2] == "sqrt_price" for t in inits) and any(t[0] == "field" and t[2] == "next_sqrt_price" for t in terms):
+            role = "price"
+        elif any(t[0] == "field" and t[2] == "tick_current_index" for t in inits):
+            role = "tick"
+        elif any(t[0] == "field" and t[2] == "liquidity" for t in inits) and "get_next_liquidity" in txt:
+            role = "liquidity"
+        elif any(const_val(t) == 0 for t in inits) and any(t[0] == "bin" and t[1].startswith("Add") and strip(t[3])[0] == "field" and strip(t[3])[2] == "fee_amount" for t in upd):
+            role = "trade_fee"
+        elif any(is_param(x, "sqrt_price_limit") for t in terms for x in leaves(t)):
+            role = "limit"
+        if role:
+            if role in roles:
+                raise AnchorMissing("two loop variables of the SDK's compute_swap match role %s" % role)
+            roles[role] = l
+    return roles
+
+
 def R3_loop(run):
     run.title("R3", "SDK compute_swap: the same limit defaulting / range / direction / zero-amount rejections as the program's swap(); per direction prev/next initialised tick and "
                     "max/min target; cursor := next - 1 iff a_to_b on reaching the tick, else tick of the new price; liquidity_net applied with the program's sign table only when the tick "
@@ -482,6 +519,11 @@ def R3_loop(run):
     a = P.need_fn("manager::swap_manager::swap")
     b = K.need_fn(SW + "compute_swap")
     run.touch(a)
+    roles = _sdk_roles(b)
+    need = {"remaining", "calculated", "price", "tick", "liquidity", "trade_fee", "limit"}
+    run.check("R3", "loop-variables", need <= set(roles), "the SDK's compute_swap lacks a loop variable for role(s) %s" % sorted(need - set(roles)), loc=b.loc(), detail="7 loop variables found by role")
+    if not need <= set(roles):
+        return
     sa = _apply(S.summary(a, S.Norm(**NORM_P)), PRE_SUBS_P)
     sb = S.summary(b, S.Norm(**NORM_S))
     fa = {x for x in sa["atoms"] if "fail(" in x}
@@ -497,7 +539,7 @@ def R3_loop(run):
     # limit defaulting
     for ab in (True, False):
         pv = prov_of(b, {"a_to_b": ab}, cut=True)
-        lim = pv.var_by_name("sqrt_price_limit")
+        lim = roles.get("limit")
         vals = set()
         src = pv.var_defs(lim) if lim is not None else []
         for _, _, t in src:
@@ -513,20 +555,18 @@ def R3_loop(run):
         seq = {callee_path(t).rsplit("::", 1)[-1] for bi, t in b.calls() if fl.state_in[bi] is not None and (callee_path(t) or "").endswith("_initialized_tick")}
         run.check("R3", "tick-search[a_to_b=%d]" % ab, seq == {"prev_initialized_tick" if ab else "next_initialized_tick"}, "SDK searches %s for a_to_b=%s" % (sorted(seq), ab), loc=b.loc(),
                   detail="prev" if ab else "next")
-        tv = pv.var_by_name("target_sqrt_price")
         ok = False
-        if tv is None:
-            # single assignment: read it at the step call
-            cs = calls_to(b, ends("get_bounded_sqrt_price_target"), ctx=ctx, cut=True)
-            tt = strip(cs[0][2][1]) if cs else ("x",)
-        else:
-            ds = pv.var_defs(tv)
+        # the step target as it reaches get_bounded_sqrt_price_target (a single-assignment local is seen through)
+        cs = calls_to(b, ends("get_bounded_sqrt_price_target"), ctx=ctx, cut=True)
+        tt = strip(cs[0][2][1]) if cs else ("x",)
+        if tt[0] == "var":
+            ds = pv.var_defs(tt[2])
             tt = strip(ds[0][2]) if len(ds) == 1 else ("x",)
         if tt[0] == "call" and tt[1].endswith("::max" if ab else "::min"):
-            ok = any(mentions(x, lambda s: s[0] == "call" and s[1].endswith("tick_index_to_sqrt_price")) for x in tt[2]) and any(strip(x)[0] == "var" and strip(x)[1] == "sqrt_price_limit" for x in tt[2])
+            ok = any(mentions(x, lambda s: s[0] == "call" and s[1].endswith("tick_index_to_sqrt_price")) for x in tt[2]) and any(strip(x)[0] == "var" and strip(x)[2] == roles.get("limit") for x in tt[2])
         run.check("R3", "target[a_to_b=%d]" % ab, ok, "SDK step target for a_to_b=%s is %s, expected %s(next tick price, limit)" % (ab, sh(tt, 80), "max" if ab else "min"), loc=b.loc(),
                   detail="%s(price(next tick), limit)" % ("max" if ab else "min"))
-        cur = pv.var_by_name("current_tick_index")
+        cur = roles.get("tick")
         ds = [strip(t) for blk, _, t in pv.var_defs(cur) if fl.state_in[blk] is not None] if cur is not None else []
         kinds = set()
         for t in ds:
@@ -550,11 +590,13 @@ def R3_loop(run):
     reach_at = None
     for at in A.atoms(b, cut=True):
         c = at.cond()
+        rhs = strip(c[2]) if c else None
+        if rhs is not None and rhs[0] == "var" and len(pv.var_defs(rhs[2])) == 1:
+            rhs = strip(pv.var_defs(rhs[2])[0][2])
         if c and c[0] in ("Eq", "Ne") and mentions(c[1], lambda s: s[0] == "field" and s[2] == "next_sqrt_price") and \
-                ((strip(c[2])[0] == "var" and strip(c[2])[1] == "next_tick_sqrt_price") or
-                 (is_call(c[2], "tick_index_to_sqrt_price") and mentions(c[2], lambda s: s[0] == "call" and s[1].endswith("_initialized_tick")))):
+                (is_call(rhs, "tick_index_to_sqrt_price") and mentions(rhs, lambda s: s[0] == "call" and s[1].endswith("_initialized_tick"))):
             reach_at = at
-    liq = pv.var_by_name("current_liquidity")
+    liq = roles.get("liquidity")
     ok = reach_at is not None and liq is not None
     if ok:
         yes = reach_at.true_targets[0] if reach_at.cond()[0] == "Eq" else reach_at.false_targets[0]
@@ -565,7 +607,7 @@ def R3_loop(run):
         ok = len(upd) == 1 and upd[0][0] in ry - rn
         if ok:
             c = upd[0][1]
-            ok = strip(c[2][0]) == ("var", "current_liquidity", liq) and is_param(c[2][2], "a_to_b") and mentions(c[2][1], lambda s: s[0] == "call" and s[1].endswith("_initialized_tick"))
+            ok = strip(c[2][0])[0] == "var" and strip(c[2][0])[2] == liq and is_param(c[2][2], "a_to_b") and mentions(c[2][1], lambda s: s[0] == "call" and s[1].endswith("_initialized_tick"))
     run.check("R3", "crossing-only-at-tick", ok, "SDK applies get_next_liquidity(current, next tick, a_to_b) elsewhere than on `step.next_sqrt_price == next_tick_sqrt_price`", loc=b.loc(),
               detail="next price == tick price => liquidity := get_next_liquidity(liquidity, tick, a_to_b)")
     for name, edge, cmpop, stepper in (("next_initialized_tick", "end_index", "Gt", "get_next_initializable_tick_index"), ("prev_initialized_tick", "start_index", "Lt", "get_prev_initializable_tick_index")):
@@ -630,7 +672,7 @@ def R3_loop(run):
     for si in (True, False):
         ctx = {"specified_input": si}
         pvc = prov_of(b, ctx, cut=True)
-        rem, cal = pvc.var_by_name("amount_remaining"), pvc.var_by_name("amount_calculated")
+        rem, cal = roles.get("remaining"), roles.get("calculated")
 
         def upd(local, opname):
             out = []
@@ -648,11 +690,11 @@ def R3_loop(run):
         run.check("R3", "amount-updates[exact_in=%d]" % si, r_ == want_r and c_ == want_c, "SDK per-step bookkeeping in mode exact_in=%s: remaining %s, calculated %s; expected remaining -= %s, calculated += %s" %
                   (si, r_, c_, "in + fee" if si else "out", "out" if si else "in + fee"), loc=b.loc(), detail="remaining -= %s; calculated += %s" % ("in + fee" if si else "out", "out" if si else "in + fee"))
     pvx = Prov(b, cut=True)
-    tf = pvx.var_by_name("trade_fee")
+    tf = roles.get("trade_fee")
     ds = [strip(t) for _, _, t in pvx.var_defs(tf)] if tf is not None else []
-    ok = len(ds) == 2 and any(const_val(d) == 0 for d in ds) and any(d[0] == "bin" and d[1].startswith("Add") and strip(d[2]) == ("var", "trade_fee", tf) and strip(d[3])[0] == "field" and strip(d[3])[2] == "fee_amount" for d in ds)
+    ok = len(ds) == 2 and any(const_val(d) == 0 for d in ds) and any(d[0] == "bin" and d[1].startswith("Add") and strip(d[2])[0] == "var" and strip(d[2])[2] == tf and strip(d[3])[0] == "field" and strip(d[3])[2] == "fee_amount" for d in ds)
     run.check("R3", "trade-fee-sum", ok, "SDK trade_fee is not the running sum of the steps' fee_amount", loc=b.loc(), detail="trade_fee += step.fee_amount")
-    cp = pvx.var_by_name("current_sqrt_price")
+    cp = roles.get("price")
     ds = [strip(t) for _, _, t in pvx.var_defs(cp)] if cp is not None else []
     ok = len(ds) == 2 and any(d[0] == "field" and d[2] == "sqrt_price" for d in ds) and any(d[0] == "field" and d[2] == "next_sqrt_price" and mentions(d, lambda s: s[0] == "call" and s[1].endswith("compute_swap_step")) for d in ds)
     run.check("R3", "price-update", ok, "SDK current_sqrt_price is not whirlpool.sqrt_price then each step's next_sqrt_price", loc=b.loc(), detail="price := step.next_sqrt_price")
@@ -660,8 +702,8 @@ def R3_loop(run):
     ok = len(cs) == 1
     if ok:
         aa = cs[0][2]
-        isv = lambda t, n: strip(t)[0] == "var" and strip(t)[1] == n
-        ok = isv(aa[0], "amount_remaining") and is_call(aa[1], "get_total_fee_rate") and isv(aa[2], "current_liquidity") and isv(aa[3], "current_sqrt_price") and \
+        isv = lambda t, n: strip(t)[0] == "var" and strip(t)[2] == roles.get(n)
+        ok = isv(aa[0], "remaining") and is_call(aa[1], "get_total_fee_rate") and isv(aa[2], "liquidity") and isv(aa[3], "price") and \
             mentions(aa[4], lambda s: s[0] == "call" and s[1].endswith("get_bounded_sqrt_price_target")) and is_param(aa[5], "a_to_b") and is_param(aa[6], "specified_input")
     run.check("R3", "step-inputs", ok, "SDK does not call compute_swap_step(remaining, total fee rate, liquidity, price, bounded target, a_to_b, specified_input)", loc=b.loc(),
               detail="(remaining, get_total_fee_rate(), liquidity, price, bounded target.0, a_to_b, specified_input)")
@@ -680,9 +722,9 @@ def R3_loop(run):
 
             def kind(t):
                 t = strip(t)
-                if t[0] == "var" and t[1] == "amount_calculated":
+                if t[0] == "var" and t[2] == roles.get("calculated"):
                     return "calculated"
-                if t[0] == "bin" and t[1].startswith("Sub") and is_param(t[2], "token_amount") and strip(t[3])[0] == "var" and strip(t[3])[1] == "amount_remaining":
+                if t[0] == "bin" and t[1].startswith("Sub") and is_param(t[2], "token_amount") and strip(t[3])[0] == "var" and strip(t[3])[2] == roles.get("remaining"):
                     return "swapped"
                 if t[0] == "var":
                     ds = pvc.var_defs(t[2])
